@@ -29,6 +29,11 @@ func (c *IContext) Canceled() bool {
 	return c.p.canceled
 }
 
+// Reopen 已取消的上下文被再次 mock 时重新生效, 之后同一上下文上的其它方法加入同一个 funcTab
+func (c *IContext) Reopen() {
+	c.p.canceled = false
+}
+
 // Cached 获取缓存数据
 func (c *IContext) Cached(key string) (v *hack.Iface, ok bool) {
 	v, ok = c.p.ifaceCache[key]
